@@ -1,22 +1,21 @@
-(* C06, part 9: functions and print directives supplied by the user, and what
-   the recover wrappers of evalFunc / evalPrint guarantee about them
-   (Model/InterpSafety.v section 5).
+(* C06, part 9: the walker with HOOKED entries of soyhtml.Funcs / soyhtml.PrintDirectives
+   (Model/InterpSafety.v section 5) -- functions and print directives supplied by the user under
+   the recover wrappers of evalFunc / evalPrint, and (Model/InterpExt.v) the library functions
+   Model/Interp.v leaves outside the model.
 
-   - recover_func_answers / recover_directive_answers: whatever the user's code
-     does short of not returning -- return any value, return nil, panic with
-     anything -- the wrapped call is a value or an error value.
-   - recover_func_noreturn / recover_directive_noreturn: user code that does not
-     return is the one thing the wrappers do not turn into an error.
-   - walk_user_logic: the walker extended with user functions satisfies EVERY
-     walker logic (Proofs/InterpLogic.v) whose pure-site condition holds of the
-     wrapped calls; walk_user_no_escape is the instance "never a panic out,
-     never a loop of the walker's own".
-   - apply_dirs_user_nc / print_writes_user_nc: evalPrint's directive loop over
-     values with user directives in the table. *)
+   - recover_func_answers / recover_directive_answers: whatever the user's code does short of not
+     returning -- return any value, return nil, panic with anything -- the wrapped call is a value
+     or an error value; *_cases: which one.
+   - sphi_walk_body_hook / walk_hook_logic: the hooked walker satisfies every (node-indexed) walker
+     logic of Proofs/InterpSub.v / InterpLogic.v whose pure-site condition holds of the hooks.
+   - walk_hook_no_escape, walk_hook_deep, walk_hook_pos, render_hook_no_escape_pos: the three
+     invariants behind C06_render_no_escape, for the hooked walker and Renderer.Execute around it.
+   - walk_user_no_escape / render_user_no_escape: the instance for user code that returns or panics. *)
 From Coq Require Import Lia ZifyN ZifyBool ZifyNat.
 From Soy Require Import Model.Bytes Model.Num Model.Values Model.Outcome Model.Ast
   Model.Escape Model.Directives Model.Print Generated.Tables Model.Interp Model.InterpSafety
-  Spec.Safety Proofs.ValueProofs Proofs.InterpLogic Proofs.InterpGuard Proofs.InterpRel Proofs.SafetyPure Proofs.SafetyProofs Proofs.SafetyMono.
+  Spec.Safety Proofs.ValueProofs Proofs.InterpLogic Proofs.InterpSub
+  Proofs.SafetyPure Proofs.SafetyNodes Proofs.SafetyProofs.
 Open Scope N_scope.
 
 (* ------------------------------------------------------------------ *)
@@ -49,162 +48,285 @@ Theorem recover_directive_cases r :
 Proof. destruct r as [[v|]|m|]; reflexivity. Qed.
 
 (* ------------------------------------------------------------------ *)
-(* the walker with user functions, for every walker logic *)
+(* the hooked walker, for every node-indexed walker logic *)
 
-Section UserLogic.
+Lemma pure_sites_to_sub pure_ok : pure_sites pure_ok -> pure_sites_sub pure_ok.
+Proof.
+  intros PS. constructor.
+  - apply (ps_arith _ PS). - apply (ps_compare _ PS). - apply (ps_string _ PS).
+  - apply (ps_print _ PS). - apply (ps_func _ PS).
+Qed.
+
+Section HookLogic.
 Variable cf : cfg.
-Variable ufuncs : bstr -> option user_func.
+Variable fhooks : bstr -> option func_hook.
+Variable dir_table : bstr -> option dir_entry.
+Variable Phi : forall A : Type, M A -> Prop.
+Arguments Phi {A} _.
+Variable pure_ok : forall A : Type, outcome A -> Prop.
+Arguments pure_ok {A} _.
+Hypothesis L : walker_logic_sub (@Phi) (@pure_ok).
+Hypothesis PS : pure_sites_sub (@pure_ok).
+(* the new pure sites: the hooked calls *)
+Hypothesis PF : forall name h vs, fhooks name = Some h -> pure_ok (fh_apply h vs).
+Hypothesis PD : forall mode ds v, pure_ok (print_writes_hook dir_table mode ds v).
+
+Ltac phi_bind := apply (ws_bind _ _ L); [ | intro ].
+
+Lemma sphi_hook_call (w : node -> M value) name h args :
+  (forall x, In x args -> Phi (w x)) -> fhooks name = Some h -> Phi (hook_call w h args).
+Proof.
+  intros Hw Hu. unfold hook_call. destruct (negb _); [apply (ws_fail _ _ L)|].
+  phi_bind.
+  - apply (sphi_eval_list _ _ L w args Hw).
+  - apply (ws_lift _ _ L). eapply PF. exact Hu.
+Qed.
+
+Lemma sphi_print_dirs_hook (w : node -> M value) l :
+  (forall x, In x (flat_map dir_subs l) -> Phi (w x)) -> Phi (print_dirs_hook cf dir_table w l).
+Proof.
+  induction l as [|d r IH]; intros H; cbn [print_dirs_hook]; [apply (ws_ret _ _ L)|].
+  assert (Hr : Phi (print_dirs_hook cf dir_table w r)).
+  { apply IH. intros y Hy. apply H. apply in_flat_map_tl. exact Hy. }
+  destruct d; try apply (ws_fail _ _ L).
+  destruct (dir_table name) as [de|]; [|apply (ws_fail _ _ L)].
+  destruct (negb _); [apply (ws_fail _ _ L)|].
+  phi_bind; [apply (sphi_eval_list _ _ L w args); intros y Hy; apply H; apply in_flat_map_hd; exact Hy|].
+  phi_bind; [exact Hr|]. apply (ws_ret _ _ L).
+Qed.
+
+Lemma sphi_print_hook (w : node -> M value) arg dirs :
+  Phi (w arg) -> (forall x, In x (flat_map dir_subs dirs) -> Phi (w x)) -> Phi (print_hook cf dir_table w arg dirs).
+Proof.
+  intros Ha Hd. unfold print_hook. phi_bind; [exact Ha|].
+  assert (Hrest : Phi (ds <-- print_dirs_hook cf dir_table w dirs ;;;
+                       st <-- get ;;;
+                       ws <-- lift (print_writes_hook dir_table (mode st) ds x) ;;;
+                       _ <-- write_all ws ;;; ret VUndef)).
+  { phi_bind; [apply sphi_print_dirs_hook; exact Hd|].
+    apply (ws_read_mode _ _ L _ (fun md => ws <-- lift (print_writes_hook dir_table md x0 x) ;;; _ <-- write_all ws ;;; ret VUndef)).
+    intros md. phi_bind; [apply (ws_lift _ _ L); apply PD|].
+    phi_bind; [apply (sphi_write_all _ _ L) | apply (ws_ret _ _ L)]. }
+  destruct x; try exact Hrest. apply (ws_fail _ _ L).
+Qed.
+
+Theorem sphi_walk_body_hook (w : node -> M value) n :
+  Phi (modify (fun st => set_cur st (pos_of n))) ->
+  (forall n', In n' (subnodes n) -> Phi (w n')) ->
+  (forall callee cd, callee_of cf n = Some callee -> Phi (call_enter w callee cd)) ->
+  Phi (walk_body_hook cf fhooks dir_table w n).
+Proof.
+  intros Hcur H Hcall.
+  assert (Hdef : Phi (walk_body cf w n)) by (apply (phi_walk_body_sub cf _ _ L PS w n Hcur H Hcall)).
+  destruct n; cbn [walk_body_hook]; try exact Hdef.
+  - (* NFunc *)
+    destruct (is_loop_func name); [exact Hdef|].
+    destruct (fhooks name) as [h|] eqn:Hu; [|exact Hdef].
+    phi_bind; [exact Hcur|]. eapply sphi_hook_call; [|exact Hu]. exact H.
+  - (* NPrint *)
+    phi_bind; [exact Hcur|]. cbn [subnodes] in H. apply sphi_print_hook.
+    + apply H. left. reflexivity.
+    + intros y Hy. apply H. right. exact Hy.
+Qed.
+End HookLogic.
+
+(* the form for full walker logics: [Phi (w n)] for every node *)
+Section HookLogicFull.
+Variable cf : cfg.
+Variable fhooks : bstr -> option func_hook.
+Variable dir_table : bstr -> option dir_entry.
 Variable Phi : forall A : Type, M A -> Prop.
 Arguments Phi {A} _.
 Variable pure_ok : forall A : Type, outcome A -> Prop.
 Arguments pure_ok {A} _.
 Hypothesis L : walker_logic (@Phi) (@pure_ok).
 Hypothesis PS : pure_sites (@pure_ok).
-(* the one new pure site: the wrapped call of a user function *)
-Hypothesis PU : forall name uf vs, ufuncs name = Some uf -> pure_ok (recover_func (uf_apply uf vs)).
+Hypothesis PF : forall name h vs, fhooks name = Some h -> pure_ok (fh_apply h vs).
+Hypothesis PD : forall mode ds v, pure_ok (print_writes_hook dir_table mode ds v).
 
-Lemma phi_user_call (w : node -> M value) name uf args :
-  (forall n, Phi (w n)) -> ufuncs name = Some uf -> Phi (user_call w uf args).
-Proof.
-  intros Hw Hu. unfold user_call. destruct (negb _); [apply (wl_fail _ _ L)|].
-  apply (wl_bind _ _ L).
-  - apply (phi_eval_list _ _ L w Hw).
-  - intros vs. apply (wl_lift _ _ L). eapply PU. exact Hu.
-Qed.
-
-Lemma phi_walk_body_user (w : node -> M value) :
-  (forall n, Phi (w n)) -> forall n, Phi (walk_body_user cf ufuncs w n).
+Lemma phi_walk_body_hook (w : node -> M value) :
+  (forall n, Phi (w n)) -> forall n, Phi (walk_body_hook cf fhooks dir_table w n).
 Proof.
   intros Hw n.
-  assert (Hdef : Phi (walk_body cf w n)) by (apply (phi_walk_body cf _ _ L PS w Hw)).
-  destruct n; cbn [walk_body_user]; try exact Hdef.
-  destruct (is_loop_func name); [exact Hdef|].
-  destruct (ufuncs name) as [uf|] eqn:Hu; [|exact Hdef].
-  apply (wl_bind _ _ L); [apply (wl_set_cur _ _ L)|]. intros _.
-  eapply phi_user_call; eauto.
+  apply (sphi_walk_body_hook cf fhooks dir_table _ _ (walker_logic_to_sub _ _ L) (pure_sites_to_sub _ PS) PF PD w n).
+  - apply (wl_set_cur _ _ L).
+  - intros n' _. apply Hw.
+  - intros callee cd _. apply (wl_enter _ _ L). apply Hw.
 Qed.
 
-Theorem walk_user_logic : forall fuel n, Phi (walk_user cf ufuncs fuel n).
+Theorem walk_hook_logic : forall fuel n, Phi (walk_hook cf fhooks dir_table fuel n).
 Proof.
   induction fuel as [|fuel IH]; intros n.
-  - cbn [walk_user]. apply (wl_lift _ _ L). apply (ps_fuel _ PS).
-  - cbn [walk_user]. apply phi_walk_body_user. exact IH.
+  - cbn [walk_hook]. apply (wl_lift _ _ L). apply (ps_fuel _ PS).
+  - cbn [walk_hook]. apply phi_walk_body_hook. exact IH.
 Qed.
-End UserLogic.
+End HookLogicFull.
 
-(* the instance of C06: user functions that return or panic *)
-Theorem walk_user_no_escape cf ufuncs :
-  (forall name uf vs, ufuncs name = Some uf -> returns_or_panics (uf_apply uf vs)) ->
-  forall fuel n st, no_escape (fst (walk_user cf ufuncs fuel n st)).
+(* ------------------------------------------------------------------ *)
+(* hooks that answer: values or error values (or values outside the model) *)
+
+Definition hooks_answer (fhooks : bstr -> option func_hook) (dir_table : bstr -> option dir_entry) : Prop :=
+  (forall name h vs, fhooks name = Some h -> nf (fh_apply h vs)) /\
+  (forall name de ap v args, dir_table name = Some de -> de_impl de = DHook ap -> nf (ap v args)).
+
+Section HookDirs.
+Variable dir_table : bstr -> option dir_entry.
+Hypothesis HD : forall name de ap v args, dir_table name = Some de -> de_impl de = DHook ap -> nf (ap v args).
+
+Theorem apply_dirs_hook_nf : forall dirs v esc, nf (apply_dirs_hook dir_table dirs v esc).
 Proof.
-  intros Hu fuel n st.
-  destruct (walk_user cf ufuncs fuel n st) as [r st'] eqn:H.
-  assert (PU : forall name uf vs, ufuncs name = Some uf ->
-                 inv_pure_ok allowed_nc (recover_func (uf_apply uf vs))).
-  { intros name uf vs Hin. apply nf_pure_nc. apply recover_func_answers. eapply Hu. exact Hin. }
-  pose proof (walk_user_logic cf ufuncs _ _ (inv_logic _ _ _ _ nc_conditions) nc_pure_sites PU fuel n st r st' I H) as H1.
+  induction dirs as [|[name args] rest IH]; intros v esc; cbn [apply_dirs_hook]; [exact I|].
+  destruct (dir_table name) as [de|] eqn:Hde; [|exact I].
+  destruct (negb _); [exact I|].
+  apply nf_bind; [|intros v'; apply IH].
+  destruct (de_impl de) as [fn nilapply|ap] eqn:Himpl.
+  - destruct nilapply; [exact I|].
+    destruct (Directives.fn_is fn fn_NoAutoescape); [exact I|].
+    apply nf_bind; [apply nf_value_string|]. intros s.
+    apply nf_bind; [apply nf_apply_fn|]. intros s'. exact I.
+  - eapply HD; eauto.
+Qed.
+
+Theorem print_writes_hook_nf mode dirs v : nf (print_writes_hook dir_table mode dirs v).
+Proof.
+  unfold print_writes_hook. apply nf_bind; [apply apply_dirs_hook_nf|]. intros [v' esc].
+  apply nf_bind; [apply nf_value_string|]. intros s. exact I.
+Qed.
+End HookDirs.
+
+(* A. never a panic out of the walker, never a loop of its own *)
+Theorem walk_hook_no_escape cf fhooks dir_table :
+  hooks_answer fhooks dir_table ->
+  forall fuel n st, no_escape (fst (walk_hook cf fhooks dir_table fuel n st)).
+Proof.
+  intros [HF HD] fuel n st.
+  destruct (walk_hook cf fhooks dir_table fuel n st) as [r st'] eqn:H.
+  assert (PF : forall name h vs, fhooks name = Some h -> inv_pure_ok allowed_nc (fh_apply h vs)).
+  { intros name h vs Hin. apply nf_pure_nc. eapply HF. exact Hin. }
+  assert (PD : forall mode ds v, inv_pure_ok allowed_nc (print_writes_hook dir_table mode ds v)).
+  { intros. apply nf_pure_nc. apply print_writes_hook_nf. exact HD. }
+  pose proof (walk_hook_logic cf fhooks dir_table _ _ (inv_logic _ _ _ _ nc_conditions) nc_pure_sites PF PD fuel n st r st' I H) as H1.
   cbn [fst]. destruct r; cbn in H1 |- *; try exact I; destruct H1 as [_ []].
 Qed.
 
-(* without user entries the extended walker is the walker *)
-Definition peq {A} (m1 m2 : M A) : Prop := forall st, m1 st = m2 st.
+(* B. below the entry template the position register is not touched (any hooks) *)
+Lemma inv_pure_any {A} (o : outcome A) : inv_pure_ok (fun _ => True) o.
+Proof. unfold inv_pure_ok. destruct (classify o); exact I. Qed.
 
-Lemma peq_refl {A} (m : M A) : peq m m.
-Proof. intros st. reflexivity. Qed.
-
-Lemma peq_bind {A B} (m1 m2 : M A) (f1 f2 : A -> M B) :
-  peq m1 m2 -> (forall x, peq (f1 x) (f2 x)) -> peq (mbind m1 f1) (mbind m2 f2).
+Theorem walk_hook_deep cf fhooks dir_table fuel n st r st' :
+  walk_hook cf fhooks dir_table fuel n st = (r, st') -> Rdeep st st'.
 Proof.
-  intros Hm Hf st. unfold mbind. rewrite <- (Hm st).
-  destruct (m1 st) as [[x|e|e| | | ] s]; try reflexivity. apply Hf.
+  intros H.
+  pose proof (walk_hook_logic cf fhooks dir_table _ _ (inv_logic _ _ _ _ deep_conditions) pure_sites_any
+                (fun _ _ _ _ => inv_pure_any _) (fun _ _ _ => inv_pure_any _) fuel n st r st' I H) as H1.
+  destruct (classify r); destruct H1; assumption.
 Qed.
 
-Lemma peq_logic : walker_logic_r (fun _ => true) (@peq) (@peq value) (fun _ _ => True).
+(* C. at depth 0 the position register stays inside the source (any hooks) *)
+Lemma rel_pure_any {A} (o : outcome A) : rel_pure_ok (fun _ => True) o.
+Proof. unfold rel_pure_ok. destruct (classify o); exact I. Qed.
+
+Theorem walk_hook_pos B cf fhooks dir_table : forall fuel n, node_all (pos_le B) n = true ->
+  rel_spec (Rpos B) (fun _ => True) (walk_hook cf fhooks dir_table fuel n).
 Proof.
-  constructor; intros; try apply peq_refl.
-  - intros st. rewrite <- H, <- H0. apply H1.
-  - apply peq_bind; assumption.
-  - intros st. apply (H (mode st) st).
-  - intros st. apply (H (ctx st) st).
-  - apply peq_bind; [apply peq_refl|]. intros _.
-    apply peq_bind; [assumption|]. intros _. apply peq_refl.
-  - intros st. rewrite !eval_eq. rewrite (H st). reflexivity.
-  - intros st. rewrite !render_block_eq. rewrite (H (buf_pushed st)). reflexivity.
-  - intros st. rewrite !call_enter_eq. cbn zeta. rewrite (H (entered st callee cd)). reflexivity.
+  induction fuel as [|fuel IH]; intros n Hn.
+  - cbn [walk_hook]. apply (rel_lift _ _ (pos_rel_conditions B)). exact I.
+  - cbn [walk_hook].
+    apply (sphi_walk_body_hook cf fhooks dir_table _ _ (rel_logic_sub _ _ (pos_rel_conditions B))
+             (pure_sites_sub_any _ (fun _ => I)) (fun _ _ _ _ => rel_pure_any _) (fun _ _ _ => rel_pure_any _)).
+    + apply rel_modify. intros st. split; [reflexivity|]. intros Hc. cbn.
+      destruct (Nat.eqb (depth_ st) 0); [|exact Hc].
+      apply node_all_head in Hn. unfold pos_le in Hn. lia.
+    + intros n' Hin. apply IH. exact (node_all_sub (pos_le B) (pos_le_syn B) n n' Hn Hin).
+    + intros callee cd _ st r st' H. rewrite call_enter_eq in H. cbn zeta in H.
+      destruct (walk_hook cf fhooks dir_table fuel (t_node callee) (entered st callee cd)) as [r1 st2] eqn:Hrun.
+      cbn [fst snd] in H. inversion H; subst.
+      split; [|match goal with |- match classify ?o with _ => _ end => destruct (classify o); exact I end].
+      apply walk_hook_deep in Hrun. destruct Hrun as [_ Hcur].
+      apply Rpos_frame; [reflexivity|]. cbn. rewrite Hcur by (cbn; discriminate). reflexivity.
 Qed.
 
-Lemma walk_body_peq cf (w1 w2 : node -> M value) :
-  (forall n, peq (w1 n) (w2 n)) -> forall n, peq (walk_body cf w1 n) (walk_body cf w2 n).
+(* D. Renderer.Execute around the hooked walker *)
+Theorem render_hook_no_escape_pos cf fhooks dir_table fuel name data_id data cl bl first_id :
+  hooks_answer fhooks dir_table ->
+  reg_pos_ok (c_reg cf) = true ->
+  no_escape (rr_outcome (render_hook cf fhooks dir_table fuel name data_id data cl bl first_id)).
 Proof.
-  intros Hw n.
-  apply (rphi_walk_body cf (fun _ => true) (@peq) (@peq value) (fun _ _ => True)
-           peq_logic approx_pure_sites (fun _ _ => eq_refl) w1 w2).
-  - intros c _. apply Hw.
-  - intros callee _. apply Hw.
-  - apply deep_true.
+  intros Hh Hreg. unfold render_hook.
+  destruct (find_template (r_templates (c_reg cf)) name) as [t|] eqn:Hf; [|exact I].
+  apply find_template_some in Hf as [Hin Hname].
+  set (st0 := init_state _ _ _ _ _ _).
+  destruct (walk_hook cf fhooks dir_table fuel (t_node t) st0) as [r st] eqn:Hrun.
+  pose proof (walk_hook_no_escape cf fhooks dir_table Hh fuel (t_node t) st0) as Hnc. rewrite Hrun in Hnc. cbn [fst] in Hnc.
+  destruct r; cbn [rr_outcome]; try exact I; try exact Hnc.
+  destruct (assoc_s name (r_sources (c_reg cf))) as [src|] eqn:Hsrc; [|exact I].
+  destruct (assoc_s name (r_files (c_reg cf))) as [file|]; [|exact I].
+  assert (Hcur : cur st <= N.of_nat (length src)).
+  { unfold reg_pos_ok in Hreg. pose proof (forallb_In _ _ _ Hreg Hin) as Ht.
+    unfold template_pos_ok in Ht. rewrite Hname, Hsrc in Ht.
+    destruct (walk_hook_pos (N.of_nat (length src)) cf fhooks dir_table fuel (t_node t) Ht _ _ _ Hrun) as [[_ Hc] _].
+    apply Hc. cbn. lia. }
+  unfold line_number. destruct (N.leb_spec (cur st) (N.of_nat (length src))); [exact I | lia].
 Qed.
 
-Theorem walk_user_none cf : forall fuel n, peq (walk_user cf (fun _ => None) fuel n) (walk cf fuel n).
+(* ------------------------------------------------------------------ *)
+(* user code *)
+
+Definition user_code_returns (ufuncs : bstr -> option user_func) (udirs : bstr -> option user_directive) : Prop :=
+  (forall name uf vs, ufuncs name = Some uf -> returns_or_panics (uf_apply uf vs)) /\
+  (forall name ud v args, udirs name = Some ud -> returns_or_panics (ud_apply ud v args)).
+
+Lemma user_hooks_answer ufuncs udirs :
+  user_code_returns ufuncs udirs -> hooks_answer (funcs_with_user ufuncs) (dirs_with_user udirs).
 Proof.
-  induction fuel as [|fuel IH]; intros n st; [reflexivity|].
-  cbn [walk_user walk].
-  assert (E : walk_body_user cf (fun _ => None) (walk_user cf (fun _ => None) fuel) n st
-              = walk_body cf (walk_user cf (fun _ => None) fuel) n st).
-  { destruct n; cbn [walk_body_user]; try reflexivity. destruct (is_loop_func name); reflexivity. }
-  rewrite E. apply walk_body_peq. exact IH.
+  intros [HF HD]. split.
+  - intros name h vs Hh. unfold funcs_with_user in Hh. destruct (ufuncs name) as [uf|] eqn:Hu; [|discriminate].
+    injection Hh as <-. cbn [fh_apply hook_of_user]. apply recover_func_answers. eapply HF. exact Hu.
+  - intros name de ap v args Hde Himpl. unfold dirs_with_user in Hde.
+    destruct (udirs name) as [ud|] eqn:Hu.
+    + injection Hde as <-. cbn [de_impl dir_of_user] in Himpl. injection Himpl as <-.
+      apply recover_directive_answers. eapply HD. exact Hu.
+    + unfold builtin_dirs in Hde. destruct (lookup_directive name) as [[arglens [cancel [nilapply fn]]]|]; [|discriminate].
+      injection Hde as <-. cbn [de_impl] in Himpl. discriminate.
+Qed.
+
+(* the walker with ANY user functions and directives that return or panic *)
+Theorem walk_user_no_escape cf ufuncs udirs :
+  user_code_returns ufuncs udirs ->
+  forall fuel n st, no_escape (fst (walk_user cf ufuncs udirs fuel n st)).
+Proof. intros H. apply walk_hook_no_escape. apply user_hooks_answer. exact H. Qed.
+
+(* Renderer.Execute with them: the handler's own code is safe too (positions stay inside the source) *)
+Theorem render_user_no_escape cf ufuncs udirs fuel name data_id data cl bl first_id :
+  user_code_returns ufuncs udirs -> reg_ok (c_reg cf) = true ->
+  no_escape (rr_outcome (render_hook cf (funcs_with_user ufuncs) (dirs_with_user udirs) fuel name data_id data cl bl first_id)).
+Proof.
+  intros H Hreg. apply render_hook_no_escape_pos; [apply user_hooks_answer; exact H | apply reg_ok_pos; exact Hreg].
 Qed.
 
 (* a user function that does not return: no wrapper helps (the witness) *)
 Example user_noreturn_diverges :
   let uf := {| uf_arities := [0]; uf_apply := fun _ => UNoReturn |} in
   let ufuncs := fun name => if bstr_eqb name (b "spin") then Some uf else None in
-  fst (walk_user {| c_reg := empty_registry; c_ij := None; c_oblig := []; c_msgs := None |} ufuncs 3
+  fst (walk_user {| c_reg := empty_registry; c_ij := None; c_oblig := []; c_msgs := None |} ufuncs (fun _ => None) 3
          (NFunc 0 (b "spin") []) (init_state [] 0 [] None None 2)) = Diverge.
 Proof. vm_compute. reflexivity. Qed.
 
-(* ... and one that panics is an error value at the function's node *)
+(* ... one that panics is an error value at the function's node *)
 Example user_panic_is_error :
   let uf := {| uf_arities := [1]; uf_apply := fun _ => UPanic (b "boom") |} in
   let ufuncs := fun name => if bstr_eqb name (b "f") then Some uf else None in
-  let r := walk_user {| c_reg := empty_registry; c_ij := None; c_oblig := []; c_msgs := None |} ufuncs 3
+  let r := walk_user {| c_reg := empty_registry; c_ij := None; c_oblig := []; c_msgs := None |} ufuncs (fun _ => None) 3
              (NFunc 7 (b "f") [NInt 9 1]) (init_state [] 0 [] None None 2) in
   is_err (fst r) = true /\ cur (snd r) = 7.
 Proof. vm_compute. split; reflexivity. Qed.
 
-(* ------------------------------------------------------------------ *)
-(* evalPrint's directive loop with user directives *)
-
-Section UserDirs.
-Variable dir_table : bstr -> option dir_entry.
-Hypothesis HD : forall name de ap v args,
-  dir_table name = Some de -> de_impl de = DUser ap -> returns_or_panics (ap v args).
-
-Theorem apply_dirs_user_nf : forall dirs v esc, nf (apply_dirs_user dir_table dirs v esc).
-Proof.
-  induction dirs as [|[name args] rest IH]; intros v esc; cbn [apply_dirs_user]; [exact I|].
-  destruct (dir_table name) as [de|] eqn:Hde; [|exact I].
-  destruct (negb _); [exact I|].
-  assert (Hstep : nf (match de_impl de with
-                      | DBuiltin fn nilapply =>
-                          if nilapply then Err e_nilapply
-                          else s <- value_string v ;; s' <- apply_fn fn (map darg_of args) s ;; Ok (VStr s')
-                      | DUser ap => recover_directive (ap v args)
-                      end)).
-  { destruct (de_impl de) as [fn nilapply|ap] eqn:Himpl.
-    - destruct nilapply; [exact I|].
-      pose proof (nf_value_string v) as Hs. destruct (value_string v) as [s| | | | |]; cbn [bind] in *; try tauto.
-      pose proof (nf_apply_fn fn (map darg_of args) s) as Ha.
-      destruct (apply_fn fn (map darg_of args) s); cbn [bind] in *; tauto.
-    - apply recover_directive_answers. eapply HD; eauto. }
-  destruct (match de_impl de with DBuiltin _ _ => _ | DUser _ => _ end) as [v'| | | | |]; cbn [bind] in *; try tauto.
-  apply IH.
-Qed.
-
-Theorem print_writes_user_nf mode dirs v : nf (print_writes_user dir_table mode dirs v).
-Proof.
-  unfold print_writes_user.
-  pose proof (apply_dirs_user_nf dirs v (negb (mode =? 2))) as H.
-  destruct (apply_dirs_user dir_table dirs v (negb (mode =? 2))) as [[v' esc]| | | | |]; cbn [bind] in *; try tauto.
-  pose proof (nf_value_string v') as Hs. destruct (value_string v'); cbn [bind] in *; tauto.
-Qed.
-End UserDirs.
+(* ... and a user directive receives the VALUE (here a list, whose length it prints) *)
+Example user_directive_on_value :
+  let ud := {| ud_arities := [0]; ud_cancel := true;
+               ud_apply := fun v _ => match v with VList _ l => UReturn (Some (VInt (Z.of_nat (length l)))) | _ => UPanic (b "not a list") end |} in
+  let udirs := fun name => if bstr_eqb name (b "count") then Some ud else None in
+  let run n := walk_user {| c_reg := empty_registry; c_ij := None; c_oblig := []; c_msgs := None |} (fun _ => None) udirs 5
+                 (NPrint 0 n [NDirective 5 (b "count") []]) (init_state [] 0 [] None None 2) in
+  rev (out (snd (run (NListLit 1 [NInt 2 7; NInt 4 8])))) = [b "2"] /\ is_err (fst (run (NInt 1 3))) = true.
+Proof. vm_compute. split; reflexivity. Qed.
